@@ -63,7 +63,8 @@ typedef enum CO_SDO_BLK_STATE_T {
     BLK_DOWNLOAD,                /*!< block download active                  */
     BLK_UPLOAD,                  /*!< block upload active                    */
     BLK_REPEAT,                  /*!< block upload repeat request active     */
-    BLK_DNWAIT                   /*!< block download wait for next block/end */
+    BLK_DNWAIT,                  /*!< block download wait for next block/end */
+    BLK_UPINIT                   /*!< block upload initiated, wait for start */
 
 } CO_SDO_BLK_STATE;
 
